@@ -16,7 +16,7 @@
 mod verif_kani {
     use super::*;
     use crate::nodes::{IfExpression, UnaryExpression, UnaryOperator};
-    use crate::verif_spec::{any_binop, any_unop, left_needed, lvl, right_needed, UNARY_LVL};
+    use crate::verif_spec::{any_binop, any_unop, left_needed, lvl, rassoc, right_needed, UNARY_LVL};
 
     // ---- leaf contracts, proved against the real bodies ---------------------------------
 
@@ -27,6 +27,7 @@ mod verif_kani {
         let a = any_binop();
         let b = any_binop();
         let r = a.precedes(b);
+        assert!(r == (lvl(a) > lvl(b)), "postcondition (restated for native replay)");
         kani::cover!(r, "some pair precedes");
         kani::cover!(!r, "some pair does not precede");
     }
@@ -36,7 +37,8 @@ mod verif_kani {
     #[kani::proof_for_contract(BinaryOperator::precedes_unary_expression)]
     fn vk_binary_precedes_unary_contract() {
         let a = any_binop();
-        let _ = a.precedes_unary_expression();
+        let r = a.precedes_unary_expression();
+        assert!(r == (lvl(a) > UNARY_LVL), "postcondition (restated for native replay)");
     }
 
     //@harness props=C02,C12 kind=proof fns=BinaryOperator::is_left_associative
@@ -44,7 +46,8 @@ mod verif_kani {
     #[kani::proof_for_contract(BinaryOperator::is_left_associative)]
     fn vk_binary_is_left_associative_contract() {
         let a = any_binop();
-        let _ = a.is_left_associative();
+        let r = a.is_left_associative();
+        assert!(r == !rassoc(a), "postcondition (restated for native replay)");
     }
 
     //@harness props=C02,C12 kind=proof fns=BinaryOperator::is_right_associative
@@ -52,7 +55,8 @@ mod verif_kani {
     #[kani::proof_for_contract(BinaryOperator::is_right_associative)]
     fn vk_binary_is_right_associative_contract() {
         let a = any_binop();
-        let _ = a.is_right_associative();
+        let r = a.is_right_associative();
+        assert!(r == rassoc(a), "postcondition (restated for native replay)");
     }
 
     // ---- callers, checked against the callees' contracts (stub_verified) -----------------
